@@ -147,7 +147,7 @@ class Termination(explore.Scenario):
             "threads_alive": lib_alive,
             "open_sockets": [repr(s) + ("(listening)" if s.listening else "") for s in socks if not s.closed],
             "registered": sum(len(sel._map) for sel in rt.net.selectors),
-            "locks": [(lk.label, lk.owner_name()) for lk in rt.lock_registry if lk.locked()],
+            "locks": rt.stuck_locks(),
             "consumer_returned": consumer_out.get("returned") if consumer is not None else None,
             "transport_released": (a.transport is None) if a is not None else None,
         }
